@@ -77,3 +77,40 @@ def executors_only_from_gate(prog) -> list:
             if isinstance(c, ast.Call) and call_attr(c) in EXECUTORS:
                 out.append((fn, c))
     return out
+
+
+def retire_branch_analysis(prog, res):
+    """The part of CommandManager._cancel_command that handles a request for which no command instance is registered.
+
+    Returns (f, g, marks, dones, skips) where `marks` are the nodes that record Cancelled for the request without a dominating
+    `<cmd>.cancel()` (the request's command is not running: it has not started - or it has completed and was finalized earlier in
+    this tick and the request is just not committed yet), `dones` the nodes that retire the request there, and `skips` the list of
+    (path, outcomes) for every path from the function entry to a retire node of that part that records nothing - `outcomes` being the
+    (test text, label) pairs taken on the path."""
+    f = prog.func(f"{CMQ}._cancel_command")
+    g = cfg_of(f)
+    cn = [n for n in g.nodes if n.ast is not None and any(call_attr(c) == "cancel" and not c.args for c in n.calls())]
+    marks = [n for n in g.nodes if n.ast is not None and any(call_attr(c) == "mark_cancelled" for c in n.calls())
+             and not any(g.dominates(c, n) for c in cn)]
+    dones = [n for n in g.nodes if n.ast is not None and any(call_attr(c) == "_executing_command_done" for c in n.calls())
+             and not any(g.dominates(c, n) for c in cn)]
+    skips = []
+    mark_ids = {m.id for m in marks}
+    cn_ids = {c.id for c in cn}
+    for dn in dones:
+        # all simple paths entry -> dn that avoid the marks and the running-command part (bounded DFS)
+        stack = [(g.entry.id, (g.entry.id,), ())]
+        found = 0
+        while stack and found < 32:
+            nid, path, outs = stack.pop()
+            if nid == dn.id:
+                skips.append(([g.nodes[i] for i in path], outs))
+                found += 1
+                continue
+            for d, l in g.succ[nid]:
+                if d in path or d in mark_ids or d in cn_ids or l == "exc":
+                    continue
+                nd = g.nodes[nid]
+                o2 = outs + ((ast.unparse(nd.ast), l),) if nd.kind == "test" and l in ("T", "F") else outs
+                stack.append((d, path + (d,), o2))
+    return f, g, marks, dones, skips
